@@ -14,7 +14,7 @@
     After each event: (value loading ready-tasks awaiters new-dependent-log futures-created
     suspense-tasks); a pending awaiter shows the invocations of its latest waker. *)
 From Coq Require Import List ZArith Bool Arith.
-From LV Require Import Base.Sexp Reactive.RxUtil Reactive.Async.
+From LV Require Import Base.Sexp Reactive.RxUtil Reactive.Async Reactive.TransitionRun.
 Import ListNotations.
 
 Definition the_fetch (p : Z * Z) : Z := (fst p * 1000 + snd p)%Z.
@@ -66,6 +66,8 @@ Fixpoint settle (c : cfg) (fuel : nat) (s : node) : node :=
   end.
 
 Definition run_C10 (x : sexp) : sexp :=
+  (* shape 6: AsyncTransition::run programs, see Reactive/TransitionRun.v *)
+  if Nat.eqb (as_nat (nth_s 0 x)) 6 then run_transition x else
   let variant := as_Z (nth_s 5 x) in
   let sh := as_nat (nth_s 0 x) in
   let wrap := as_nat (nth_s 1 x) in
